@@ -10,6 +10,8 @@ package main
 //	(c)  at a tick whose current slot is inside the window, if the last fetch attempt of the tick's
 //	     epoch / period before the dispatch point succeeded, every in-committee duty of that assignment
 //	     due at the tick's slot is dispatched (in every role of the handler)                  [honest]
+//	(c') proposer: the same for the latest SUCCESSFUL attempt when later attempts failed and no reorg
+//	     arrived since (a failed re-fetch after a validator-set change does not cancel what was fetched)
 //
 // honest = the hypothesis of theorems C16_*_exactly_once (coq/Scheduler/Spec.v, honest_from): ticks are
 // consecutive slots, the first one not before the start slot; every reorg / indices event between tick t
@@ -258,6 +260,23 @@ func (m *monitor) step(o op, obs []obsv) (viol []string) {
 	missing := func(preN int) (string, bool) {
 		tr := append(append([]attempt{}, before...), all[:preN]...)
 		la := m.lastAttempt(tr, key)
+		if la != nil && la.res != 'o' && m.cfg.kind == 'P' {
+			// (c') A proposer assignment that was fetched successfully stays due when a later re-fetch of the
+			// same epoch fails, as long as no reorg has invalidated it in between (the failed attempts were
+			// caused by validator-set changes only): "exactly once whenever the assignment for that epoch had
+			// been fetched successfully before that tick".
+			if lo := m.latestOk(tr, key); lo != nil {
+				reorg := false
+				for _, e := range m.events {
+					if e.kind == "REORG" && e.at > lo.at {
+						reorg = true
+					}
+				}
+				if !reorg {
+					la = lo
+				}
+			}
+		}
 		if la == nil || la.res != 'o' {
 			return "", false
 		}
